@@ -485,6 +485,142 @@ pub fn worker_main(args: &[String]) -> i32 {
     0
 }
 
+
+// ---------------------------------------------------------------------------------------
+// legal call sequences with rollback in the middle (in-process, on the well-formed corpus)
+
+struct LegalDfs<'a> {
+    eos: u32,
+    n1: usize,
+    n2: usize,
+    branch: usize,
+    nodes: u64,
+    calls: u64,
+    cap: u64,
+    capped: bool,
+    bad: Option<(Vec<String>, String)>,
+    vocab: &'a crate::vocab::VocabSpec,
+}
+
+impl<'a> LegalDfs<'a> {
+    fn is_internal(msg: &str) -> bool {
+        msg.starts_with("panic") || msg.contains("panicked") || msg.contains("internal error")
+    }
+
+    /// phase 0: up to n1 commits, then one rollback of 1 or 2 tokens; phase 1: up to n2 more commits
+    fn go(&mut self, m: &llguidance::Matcher, left: usize, phase: u8, hist_len: usize, ops: &mut Vec<String>) {
+        if self.bad.is_some() {
+            return;
+        }
+        if self.nodes >= self.cap {
+            self.capped = true;
+            return;
+        }
+        self.nodes += 1;
+        if phase == 0 && hist_len >= 1 {
+            for k in 1..=hist_len.min(2) {
+                let mut r = m.clone();
+                self.calls += 1;
+                ops.push(format!("r:{k}"));
+                match r.rollback(k) {
+                    Ok(()) => self.go(&r, self.n2, 1, hist_len - k, ops),
+                    Err(e) => {
+                        let s = e.to_string();
+                        if Self::is_internal(&s) {
+                            self.bad = Some((ops.clone(), format!("rollback({k}): {}", s.lines().next().unwrap_or(""))));
+                        }
+                    }
+                }
+                ops.pop();
+                if self.bad.is_some() {
+                    return;
+                }
+            }
+        }
+        if left == 0 || m.is_stopped() {
+            return;
+        }
+        let mut probe = m.clone();
+        self.calls += 1;
+        let mask = match probe.compute_mask() {
+            Ok(mk) => mk,
+            Err(e) => {
+                let s = e.to_string();
+                if Self::is_internal(&s) {
+                    self.bad = Some((ops.clone(), format!("compute_mask: {}", s.lines().next().unwrap_or(""))));
+                }
+                return;
+            }
+        };
+        let toks: Vec<u32> = mask.iter().filter(|t| *t != self.eos).collect();
+        let mut picks: Vec<u32> = vec![];
+        if mask.is_allowed(self.eos) {
+            picks.push(self.eos);
+        }
+        let b = self.branch.saturating_sub(picks.len()).max(1);
+        if toks.len() <= b {
+            picks.extend(toks.iter().copied());
+        } else {
+            // deterministic spread, rotated by the depth so that different positions see different tokens
+            for i in 0..b {
+                picks.push(toks[(i * toks.len() / b + hist_len) % toks.len()]);
+            }
+        }
+        for t in picks {
+            let mut c = probe.clone();
+            self.calls += 1;
+            ops.push(format!("c:{t}"));
+            match c.consume_token(t) {
+                Ok(()) => self.go(&c, left - 1, phase, hist_len + 1, ops),
+                Err(e) => {
+                    let s = e.to_string();
+                    if Self::is_internal(&s) || !crate::props::c01::is_resource_limit(&s) {
+                        self.bad = Some((ops.clone(), format!("commit of mask token {t} {:?}: {}", crate::common::show(&self.vocab.tokens[t as usize]), s.lines().next().unwrap_or(""))));
+                    }
+                }
+            }
+            ops.pop();
+            if self.bad.is_some() {
+                return;
+            }
+        }
+    }
+}
+
+fn legal_call_layer(ctx: &Ctx) {
+    use crate::jobs::{make_jobs, VKind};
+    let items: Vec<crate::corpus::Item> = crate::corpus::all_items();
+    let jobs = make_jobs(&items, &[VKind::Bytes, VKind::Multi2]);
+    let (n1, n2, branch, cap) = (ctx.tier.pick(3, 4), ctx.tier.pick(3, 4), ctx.tier.pick(4, 5), ctx.tier.pick(20_000u64, 400_000));
+    jobs.par_iter().for_each(|job| {
+        let Ok(f) = Factory::new(&job.vocab, &Slices::Default) else { return };
+        let Ok(root) = f.try_matcher(&job.item.g) else { return };
+        let mut d = LegalDfs { eos: job.vocab.eos, n1, n2, branch, nodes: 0, calls: 0, cap, capped: false, bad: None, vocab: &job.vocab };
+        let mut ops = vec![];
+        let r = guarded(|| {
+            let n1 = d.n1;
+            d.go(&root, n1, 0, 0, &mut ops)
+        });
+        ctx.count("legal_call_nodes", d.nodes);
+        ctx.count(if d.capped { "legal_call_jobs_capped" } else { "legal_call_jobs_complete" }, 1);
+        ctx.states.fetch_add(d.nodes, Ordering::Relaxed);
+        ctx.transitions.fetch_add(d.calls, Ordering::Relaxed);
+        ctx.validated.fetch_add(d.calls, Ordering::Relaxed);
+        let bad = match r {
+            Err(p) => Some((vec![], format!("escaped panic: {}", p.lines().next().unwrap_or("")))),
+            Ok(()) => d.bad.take(),
+        };
+        if let Some((ops, msg)) = bad {
+            ctx.violation(Violation {
+                check: "legal_call_sequence".into(),
+                class: "robustness-panic-or-refusal-on-legal-call".into(),
+                signature: format!("legal|{}|{}|{:?}", job.item.name, job.vocab.name, ops),
+                detail: json!({"kind": "legal_calls", "grammar": job.item.g.to_json(), "vocab": job.vocab.to_json(), "slices": Slices::Default.to_json(), "ops": ops, "what": msg}),
+            });
+        }
+    });
+}
+
 // ---------------------------------------------------------------------------------------
 // parent
 
@@ -588,6 +724,8 @@ pub fn run(ctx: &Ctx) -> Coverage {
             false
         }
     };
+    legal_call_layer(ctx);
+    ctx.note(format!("legal-call layer done at {:.1}s", ctx.elapsed()));
     let me = std::env::current_exe().unwrap().to_string_lossy().to_string();
     let ovf = std::env::var("LLGMC_OVF_BIN").ok().filter(|p| std::path::Path::new(p).exists());
     if ovf.is_none() {
@@ -704,6 +842,6 @@ pub fn run(ctx: &Ctx) -> Coverage {
         ctx.machinery_error("vacuous run: no engine built");
     }
     Coverage::StateGraph {
-        rule: "every string of <= 3 (thorough: 4) lexical fragments from a 28-entry Lark alphabet (raw and after 'start:'), a 26-entry regex alphabet, every object of <= 2 (thorough: 3) keyword/value pairs from a 41-entry JSON-schema menu (flat and nested), every single-point mutation of every corpus Lark grammar and JSON schema (also under tight limits), and size ladders (nesting to 1e4/1e5, counts to 2^64, multipleOf products, long literals, $ref chains); each input is compiled in a child process with wall-clock and address-space limits and, when it builds, driven through every sequence of <= 3 legal calls (mask, validate, commit of 3 mask tokens, rollback); the whole enumeration also runs in a build with overflow checks; states = inputs, transitions = legal API calls".into(),
+        rule: "every string of <= 3 (thorough: 4) lexical fragments from a 28-entry Lark alphabet (raw and after 'start:'), a 26-entry regex alphabet, every object of <= 2 (thorough: 3) keyword/value pairs from a 41-entry JSON-schema menu (flat and nested), every single-point mutation of every corpus Lark grammar and JSON schema (also under tight limits), and size ladders (nesting to 1e4/1e5, counts to 2^64, multipleOf products, long literals, $ref chains); each input is compiled in a child process with wall-clock and address-space limits and, when it builds, driven through every sequence of <= 3 legal calls (mask, validate, commit of 3 mask tokens, rollback); the whole enumeration also runs in a build with overflow checks; plus, in-process on every corpus grammar x {byte, multi-byte} vocabulary with default slices, every legal call sequence of the shape <= 3 (thorough: 4) commits, one rollback of 1 or 2 tokens, <= 3 (4) further commits, with <= 4 (5) mask tokens per position (EOS whenever allowed) — no internal panic, no refusal of a mask token; states = inputs, transitions = legal API calls".into(),
     }
 }
